@@ -149,12 +149,30 @@ def _observe(ctx, props):
         rm(tr)
 
 
+def _observe_server(ctx, props):
+    """growth: RFC 7641 end to end over datagrams (ObserveServer.tla)"""
+    dev = ctx.build("dev")
+    out = ctx.path("observe-server-scripts.nd")
+    ctx.model_check("MC_ObserveServer", env={"DEPTH": 6 if ctx.thorough else 4, "OUT": out}, workers=8, timeout=1500, expect_states=500)
+    tr = ctx.path("observe-script-trace.ndjson")
+    info = ctx.harness(dev, "rec", "observe-script", "--in", out, "--out", tr)
+    ctx.events += int(info.get("events", 0))
+    ctx.vectors += int(info.get("scripts", 0))
+    tr2, _ = ctx.record(dev, "observe-server", name="observe-server")
+    ctx.validate_many([("Trace_ObserveServer", tr, props, "observe-scripts"), ("Trace_ObserveServer", tr2, props, "observe-server")])
+    rm(tr)
+    rm(tr2)
+    rm(out)
+
+
 def c14(ctx):
     _observe(ctx, {"C14"})
+    _observe_server(ctx, {"C14"})
 
 
 def c15(ctx):
     _observe(ctx, {"C15"})
+    _observe_server(ctx, {"C15"})
 
 
 OBSERVE_RULE = ("TLC explores every history of register / deregister / notification round / acknowledge / set-limit calls up to "
